@@ -15,10 +15,19 @@ pub struct Work {
 /// 2 = everything incl. growing where-clauses, hierarchy and builtin.
 pub fn workload(r: &mut Rng, k: u64, mix: u32, ngoals: usize) -> Work {
     let sel = match mix {
-        0 => k % 5,
-        1 => k % 8,
-        _ => k % 11,
+        0 => k % 6,
+        1 => k % 9,
+        _ => k % 12,
     };
+    // one slot of every mix: the multi-answer fragment
+    if matches!((mix, sel), (0, 5) | (1, 8)) || (mix >= 2 && sel == 11) {
+        let (prog, pool) = gen_multi_answer(r);
+        let mut pool = pool;
+        r.shuffle(&mut pool);
+        let goals = pool.into_iter().take(ngoals).map(|(g, e)| (goal_text(&g), e, Some(g))).collect();
+        let text = program_text(&prog);
+        return Work { prog, text, goals, fragment: "multi-answer" };
+    }
     // one slot of every mix is the propositional fragment (dense cycles on a single struct)
     let sel = match (mix, sel) {
         (0, 4) | (1, 7) | (_, 10) => {
